@@ -142,6 +142,16 @@ def sLine (ws : List String) : String := Id.run do
     | [a, b] => some (a.toNat?.getD 0, b.toNat?.getD 0)
     | _ => none
   if want ≠ got then issues := issues ++ [s!"ORACLE C15 match_list returned {got}, expected {want} (matching items, stable, descending score)"]
+  -- Atom::match_list of the first atom, same clause
+  if get "aitems" ≠ "x" && get "aitems" ≠ "" then
+    let aitems : List (Nat × Option Nat) :=
+      if get "aitems" = "-" then [] else (((get "aitems").splitOn ",").map (fun s => s.toNat?)).zipIdx.map (fun p => (p.2, p.1))
+    let awant := matchList aitems
+    let agot : List (Nat × Nat) := if get "alist" = "-" then [] else ((get "alist").splitOn ",").filterMap fun e =>
+      match e.splitOn "." with
+      | [a, b] => some (a.toNat?.getD 0, b.toNat?.getD 0)
+      | _ => none
+    if awant ≠ agot then issues := issues ++ [s!"ORACLE C15 Atom::match_list returned {agot}, expected {awant} (matching items, stable, descending score)"]
   if issues.isEmpty then "ok" else " ## ".intercalate issues
 
 /-- `N cfg= pre= k= ext= hr<c>= hay<c>= atoms<c>= col<c>= … multi=` — `MultiPattern::score` over `k` columns -/
